@@ -229,12 +229,31 @@ def run_case(case: Case):
 def _handle_sat(case, hyps, g, r):
     """Counterexample found: try a margin model first, then replay on the real code."""
     models = []
+    # first choice: a counterexample on a coarse dyadic grid (robust against float rounding in the replay)
+    try:
+        fv = set()
+        for h in hyps + [g.term]:
+            fv |= tm.free_vars(h)
+        inputs = [v for v in fv if v.sort == "R" and not v.val.startswith(("@", "$")) and "!" not in v.val]
+        if 0 < len(inputs) <= 40:
+            nice = [tm.eq(tm.floor(tm.scale(v, 64)), tm.scale(v, 64)) for v in inputs]
+            r0 = smt.solve(hyps + [margin_negation(g.term, case.margin or 1e-3)] + nice, timeout_s=min(case.timeout, 10.0),
+                           families=case.families, ack_uf=case.ack_uf)
+            if r0.status == "sat":
+                models.append(_model_json(r0.model))
+    except Exception:  # noqa: BLE001
+        pass
     if case.margin:
         r2 = smt.solve(hyps + [margin_negation(g.term, case.margin)], timeout_s=min(case.timeout, 20.0),
                        families=case.families, ack_uf=case.ack_uf, tactic=case.tactic)
         if r2.status == "sat":
             models.append(_model_json(r2.model))
     models.append(_model_json(r.model))
+    # candidates near the solver's models that are exactly representable (any input that reproduces on
+    # the real code is a genuine witness, wherever it came from)
+    for base in list(models):
+        for grid in (256.0, 16.0):
+            models.append({k: (round(v * grid) / grid if isinstance(v, float) else v) for k, v in base.items()})
     last = None
     for vals in models:
         rp = replay_goal(case, vals, g.name)
